@@ -49,7 +49,7 @@ def x_lookup( ctx ):
     # explicit non-transition is redundant, and would leave excluded symbols to the live wildcard
     raw = [ n for n in lookups( '_k' ) if n not in exact and n not in anyl and n not in nonl ]
     if raw:
-        res.bad( src, raw[0].stmt, 'state.__getitem__: the transition table is consulted with a key other than the encoded symbol / ANY / NON ( %s )' % norm_text( txt( raw[0].own() ))[:70],
+        res.bad( src, raw[0].stmt, 'state.__getitem__: the transition table is consulted with a key other than the encoded symbol / ANY / NON ( %s )' % norm_text( ast.unparse( raw[0].own() ))[:70],
                  "True == 1 and None / True are the sentinels of the wildcard and no-input transitions: looked up as they come, a sentinel finds the transition of the symbol 1 ( b'\\x01' ), and an unencoded symbol finds nothing or the wrong entry" )
     else:
         res.ok( src, exact[0].stmt, 'the table is consulted with the encoded symbol, self.ANY and self.NON only' )
